@@ -8,6 +8,7 @@ import vlib
 from checks import langgen as lg
 
 FUEL = 3000
+_RUN_NO = 0
 
 
 def unhex(h):
@@ -71,11 +72,13 @@ def run_model(sx_lines, fuel=FUEL, timeout=1800):
         shutil.rmtree(tmp, ignore_errors=True)
 
 
-def run_impl(sources, kind="hooked", opts="", timeout=3600, per_case=20):
+def run_impl(sources, kind="hooked", opts="", timeout=3600, per_case=20, env=""):
     """sources: list of Bloch source texts; returns the drv_prog JSON per case"""
     vlib.repo_build(kind)
     drv = vlib.cpp_driver("drv_prog", kind=kind) if kind != "hooked" else vlib.cpp_driver("drv_prog")
-    tmp = os.path.join(vlib.BUILD, "tmp", "langi-%s-%d" % (kind, os.getpid()))
+    global _RUN_NO
+    _RUN_NO += 1
+    tmp = os.path.join(vlib.BUILD, "tmp", "langi-%s-%d-%d" % (kind, os.getpid(), _RUN_NO))
     os.makedirs(tmp, exist_ok=True)
     try:
         with open(os.path.join(tmp, "cases.txt"), "w") as fc:
@@ -85,7 +88,7 @@ def run_impl(sources, kind="hooked", opts="", timeout=3600, per_case=20):
                 o = opts[i] if isinstance(opts, list) else opts
                 fc.write("run %s %s\n" % (path, o))
         errp = os.path.join(tmp, "stderr.txt")
-        rc, oc = vlib.sh("%s %s %d 2> %s" % (drv, os.path.join(tmp, "cases.txt"), per_case, errp), timeout=timeout)
+        rc, oc = vlib.sh("%s %s %s %d 2> %s" % (env, drv, os.path.join(tmp, "cases.txt"), per_case, errp), timeout=timeout)
         lc = oc.splitlines()
         errtxt = open(errp, errors="replace").read() if os.path.exists(errp) else ""
         if len(lc) != len(sources):
